@@ -93,8 +93,8 @@ func frac64[T fixed.Dx](places int, op string, a []string) string {
 }
 
 func frac128[T fixed.Dx](places int, op string, a []string) string {
-	o := func(v f128.Int[T]) string { return i128Big(f128.VerifC03Raw(v)).String() }
-	raw := func(v int64) f128.Int[T] { return f128.VerifC03FromRaw[T](toI128(strconv.FormatInt(v, 10))) }
+	o := func(v f128.Int[T]) string { return raw128(v).String() }
+	raw := func(v int64) f128.Int[T] { return mk128[T](bi(v)) }
 	all := func(fr f128.Fraction[T]) string {
 		out := o(fr.Numerator) + " " + o(fr.Denominator)
 		nf := fr
